@@ -5,6 +5,7 @@ import sys, os, json, math, random, ctypes
 sys.path.insert(0, os.path.dirname(os.path.abspath(__file__)))
 import c15_lib as L
 import rebound
+sys.setrecursionlimit(20000)      # trees over subnormal separations are ~1100 cells deep
 clib = rebound.clibrebound
 
 
@@ -836,6 +837,104 @@ def run_edges(spec):
         res["fail"] = {"key": "edges:error", "what": "library raised: %s" % e}
     return res
 
+
+# ------------------------------------------------------------------------------------------------ near-coincident but DISTINCT particles
+def run_near(spec):
+    """Pairs of particles that differ by a tiny amount in one, two or three coordinates (the others identical): separations of one ulp, 2^-80,
+    1e-20 and 1e-17 root sizes, subnormal; added directly, and produced by motion across cell borders (exact drift).  Expectation, derived from
+    the model (C15_insert_accepts_distinct: with enough levels every particle that differs from every resident in at least one coordinate is
+    accepted): every add is accepted, N and the identities are conserved, every particle sits in exactly one leaf of a containing cell."""
+    rng = random.Random(spec["seed"])
+    res = {"fail": None, "dumps": [], "upd": [], "bcases": [], "stats": {"tree_checks": 0, "shape_checks": 0, "ties": 0, "maxdepth": 0, "cells": 0,
+                                                                         "grav_checks": 0, "steps": 0, "near_pairs": 0}}
+    rs = spec["rs"]; box = L.Box(rs, *spec["n"])
+    sim = setup(spec)
+    if sim.collision != "none":
+        sim.collision_resolve = lambda s_, c_: 0
+    sep = spec["sep"]
+    # binary64-resolution classes run into the open finding tree:cell_centre_rounding (cells as small as an ulp / a subnormal)
+    fkey = "tree:cell_centre_rounding" if sep in ("ulp", "subnormal") else "near:distinct_particle_not_accounted"
+    nid = [0]; expected = []
+
+    def add(pt, v=(0., 0., 0.), what=""):
+        nid[0] += 1
+        n0 = sim.N
+        try:
+            sim.add(m=0.0, x=pt[0], y=pt[1], z=pt[2], vx=v[0], vy=v[1], vz=v[2], r=0.0, hash=nid[0])
+        except RuntimeError as e:
+            raise Fail(fkey if "same coordinates" not in str(e) or sep in ("ulp", "subnormal") else "near:distinct_particle_refused",
+                       "sim.add refused a particle that differs from every particle in the tree (%s, separation class %s): %s" % (what, sep, e))
+        if sim.N != n0 + 1:
+            raise Fail("near:distinct_particle_refused", "sim.add did not add the particle (%s)" % what)
+        expected.append(nid[0])
+
+    def verify(where, update):
+        if update:
+            clib.reb_simulation_update_tree(ctypes.byref(sim))
+        msgs = []
+        for _ in range(100):
+            try:
+                sim.process_messages(); break
+            except RuntimeError as e:
+                msgs.append(str(e))
+        ids = sorted(sim.particles[i].hash.value for i in range(sim.N))
+        if msgs or ids != sorted(expected):
+            raise Fail(fkey if not msgs or sep in ("ulp", "subnormal") else "near:distinct_particle_refused",
+                       "%s (separation class %s): N=%d, missing ids %s, messages %s" % (where, sep, sim.N, sorted(set(expected) - set(ids))[:4], msgs[:1]))
+        try:
+            check_tree(sim, box, where, res, spec)
+        except Fail as f:
+            raise Fail(fkey, f.what, f.detail)
+    try:
+        # a few ordinary particles
+        for i in range(4):
+            add((rng.uniform(-0.45, 0.45) * box.box[0], rng.uniform(-0.45, 0.45) * box.box[1], rng.uniform(-0.45, 0.45) * box.box[2]), what="ordinary")
+        u0 = rs * 2.0 ** -40
+        pairs = []
+        for k, mask in enumerate([(1, 0, 0), (0, 1, 0), (0, 0, 1), (1, 1, 0), (0, 1, 1), (1, 1, 1), (1, 0, 1)]):
+            if sep == "subnormal":
+                if k > 0:
+                    break              # one pair at the origin (a second one would coincide)
+                base = (0.0, 0.0, 0.0); mask = spec.get("mask", [1, 1, 1]); d = 5e-324
+            else:
+                base = ((3 + 2 * k) * u0, -(5 + 2 * k) * u0, (7 + 4 * k) * u0 * (1 if k % 2 else -1))
+                d = {"ulp": None, "2^-80": rs * 2.0 ** -80, "1e-20": 1e-20 * rs, "1e-17": 1e-17 * rs}[sep]
+            q = tuple((math.nextafter(base[a], math.inf) if d is None else base[a] + d) if mask[a] else base[a] for a in range(3))
+            assert all((q[a] != base[a]) == bool(mask[a]) for a in range(3)), (base, q)
+            pairs.append((base, q, mask))
+        for base, q, mask in pairs:
+            add(base, what="first of a pair"); add(q, what="second of a pair, differing in %d coordinate(s) %s" % (sum(mask), mask))
+            res["stats"]["near_pairs"] += 1
+        verify("near-coincident pairs added", False)
+        verify("near-coincident pairs, tree update", True)
+        for s in range(2):
+            sim.step(); res["stats"]["steps"] += 1
+        verify("near-coincident pairs after 2 steps", True)
+        # produced by motion: a particle drifts across cell borders and stops next to a resting one (exact binary arithmetic)
+        if sep not in ("ulp", "subnormal"):
+            dt = sim.dt
+            for k, mask in enumerate([(1, 0, 0), (1, 1, 1), (0, 1, 1)]):
+                target = ((41 + 2 * k) * u0, (43 + 2 * k) * u0, -(47 + 2 * k) * u0)
+                d = {"2^-80": rs * 2.0 ** -80, "1e-20": 1e-20 * rs, "1e-17": 1e-17 * rs}[sep]
+                dest = tuple(target[a] + d if mask[a] else target[a] for a in range(3))
+                v = tuple((rs * 2.0 ** -6 / dt) * (1 if a != 1 else -1) for a in range(3))      # dt*v = rs/64 exactly (dt is a power of two)
+                start = tuple(dest[a] - dt * v[a] for a in range(3))
+                if any(start[a] + 0.5 * dt * v[a] + 0.5 * dt * v[a] != dest[a] for a in range(3)):
+                    continue            # not exactly reachable in binary64
+                add(target, what="resting target"); add(start, v, what="moving towards the target")
+                res["stats"]["near_pairs"] += 1
+            sim.step(); res["stats"]["steps"] += 1
+            for i in range(sim.N):
+                q_ = sim.particles[i]; q_.vx = 0.0; q_.vy = 0.0; q_.vz = 0.0
+            verify("a particle drifted across cell borders to a near-coincident position", True)
+            sim.step(); res["stats"]["steps"] += 1
+            verify("one more step", True)
+    except Fail as f:
+        res["fail"] = {"key": f.key, "what": f.what, "detail": f.detail, "step": res["stats"]["steps"]}
+    except RuntimeError as e:
+        res["fail"] = {"key": fkey, "what": "library raised (separation class %s): %s" % (sep, e)}
+    return res
+
 # ------------------------------------------------------------------------------------------------ corner cases (explicit coordinates)
 def run_corner(spec):
     res = {"fail": None, "dumps": [], "bcases": [], "stats": {"steps": 0, "tree_checks": 0, "shape_checks": 0, "ties": 0, "maxdepth": 0, "cells": 0, "grav_checks": 0}}
@@ -927,5 +1026,5 @@ def run_corner(spec):
 
 if __name__ == "__main__":
     spec = json.load(sys.stdin)
-    r = {"tree": run_tree, "boundary": run_boundary, "corner": run_corner, "restore": run_restore, "ops": run_ops, "edges": run_edges}[spec["kind"]](spec)
+    r = {"tree": run_tree, "boundary": run_boundary, "corner": run_corner, "restore": run_restore, "ops": run_ops, "edges": run_edges, "near": run_near}[spec["kind"]](spec)
     sys.stdout.write("\nC15RESULT " + json.dumps(r) + "\n")
